@@ -261,12 +261,17 @@ def extract_branch_results_with_internals(net, branch_results, table_name,
             sections_table_order = np.empty_like(sections)
             sections_table_order[placement_table] = sections
             last_section_table_order = (np.cumsum(sections_table_order) - 1).astype(int)
+            first_section_table_order = last_section_table_order - sections_table_order.astype(int) + 1
             indices_last_section = last_section_table_order[placement_table][connected_ind]
+            indices_first_section = first_section_table_order[placement_table][connected_ind]
+            # the fluid leaves a branch through its first section if it flows against the branch orientation
+            reverse_flow = branch_results["mf_from"][f:t][indices_last_section] < 0
+            indices_outlet_section = np.where(reverse_flow, indices_first_section, indices_last_section)
             # hint: idx_pit[placement_table] should result in the indices as ordered in the table
             pt = placement_table[connected_ind]
 
             for i, (res_name, entry) in enumerate(res_branch):
-                res_table[res_name].values[pt] = branch_results[entry][f:t][indices_last_section]
+                res_table[res_name].values[pt] = branch_results[entry][f:t][indices_outlet_section]
 
 
 def extract_branch_results_without_internals(net, branch_results, required_results_hydraulic,
